@@ -62,7 +62,7 @@ Registered == {<<"L">>, <<"L", "L">>, <<"L", "D">>}
 ArgsClass(a) ==
   IF a = <<>> THEN "none"
   ELSE IF \A i \in 1..Len(a) : a[i] = "D" THEN "int"
-  ELSE IF Len(a) >= 2 /\ a[1] = "QT" /\ a[Len(a)] = "QT" /\ \A i \in 2..(Len(a) - 1) : a[i] \in {"L", "D", "SP", "DOT", "US"} THEN "str"
+  ELSE IF Len(a) >= 2 /\ a[1] = "QT" /\ a[Len(a)] = "QT" /\ \A i \in 2..(Len(a) - 1) : a[i] \in {"L", "D", "SP", "DOT", "US", "LP", "RP"} THEN "str"
   ELSE "unconstrained"
 
 ChunkKind(s, ch) ==
